@@ -132,6 +132,16 @@ func runLife(t testing.TB, plan []string, spare int, inbox int, stop string) str
 	case <-time.After(5 * time.Second):
 		return "SPAWN-HANG"
 	}
+	// a second Spawn of the same kind and id while the senders are still at work: a duplicate, refused; it must leave
+	// the live actor, its registration and its pending messages untouched (and must not run the producer)
+	mkTwin := func() Receiver {
+		h.mu.Lock()
+		h.inc++
+		inc := h.inc
+		h.mu.Unlock()
+		return &vLifeRecv{h: h, inc: inc}
+	}
+	e.Spawn(mkTwin, "life", WithID(id), WithMaxRestarts(booms+spare), WithRestartDelay(2*time.Millisecond), WithInboxSize(inbox))
 	wg.Wait()
 	close(h.holdCh)
 	res := "done"
